@@ -246,6 +246,30 @@ def run(ctx):
                     a.analysis['RV-ALIAS'] = '1'
                     ctx.check(fp(b, ident=False) == before, 'alias:keywords-shared', cid, **dd)
                     ctx.case_done(class_key=('alias', name, kind, direction), nontrivial=True, distinct_key=core.digest(cid, name, kind, direction))
+    # two loads of one path are independent objects (no cache may hand out shared buffers or metadata)
+    for cid, rng in ctx.cases([('loads', r) for r in range(6 if ctx.tier == 'quick' else 120)]):
+        mon.cid = cid
+        spec = zoo.int_spec(rng, n=12, d=3) if rng.random() < 0.5 else zoo.float_spec(rng, n=12, d=3)
+        a = zoo.write_and_load(F, spec, path)
+        ref = fp(a, ident=False)
+        for loader in ('FCSData', 'FCSFile'):
+            a = F.io.FCSData(path)
+            if loader == 'FCSData':
+                b = F.io.FCSData(path)
+            else:
+                b = F.io.FCSFile(path)
+            a[0, 0] = a[0, 0] + 1
+            a.range(0)[1] = -3.5
+            a.text['RV-ALIAS'] = '1'
+            ctx.counters['chk:alias'] += 1
+            if loader == 'FCSData':
+                ctx.check(fp(b, ident=False) == ref, 'alias:two-loads-share-state', cid, loader=loader, first_diff=diff(ref, fp(b, ident=False)))
+                c = F.io.FCSData(path)
+                ctx.check(fp(c, ident=False) == ref, 'alias:later-load-sees-modified-earlier-load', cid, first_diff=diff(ref, fp(c, ident=False)))
+            else:
+                ctx.check('RV-ALIAS' not in b.text and np.asarray(b.data)[0, 0] != np.asarray(a)[0, 0],
+                          'alias:two-loads-share-state', cid, loader=loader)
+        ctx.case_done(class_key=('alias', 'two-loads', spec['datatype']), nontrivial=True, distinct_key=core.digest(cid))
     # ---- (iii) history: ordered pairs of read-only queries ------------------------------------
     def queries(F):
         Q = [('channels', lambda s: s.channels), ('range()', lambda s: s.range()), ('range(0)', lambda s: s.range(0)),
